@@ -981,6 +981,16 @@ def integer_attributes(modules) -> set:
                 v = n.value
                 if (isinstance(v, ast.Constant) and type(v.value) is int) or (isinstance(v, ast.Call) and isinstance(v.func, ast.Name) and v.func.id in ("int", "len")):
                     out.add(n.targets[0].attr)
+    # copies of integer attributes are integers
+    changed = True
+    while changed:
+        changed = False
+        for m in modules:
+            for n in ast.walk(m):
+                if isinstance(n, ast.Assign) and len(n.targets) == 1 and isinstance(n.targets[0], ast.Attribute) and n.targets[0].attr not in out \
+                        and isinstance(n.value, ast.Attribute) and n.value.attr in out:
+                    out.add(n.targets[0].attr)
+                    changed = True
     return out
 
 
